@@ -153,7 +153,7 @@ func deferRegIndex(H, d *FuncNode) int {
 
 func checkC14(p *Prog, r *Result, tier string) {
 	r.Technique = "write-ahead ordering rules on go/cfg dominance and defer-stack order; writer/reader agreement of event item types; handler registration completeness"
-	r.Explanation = "For every wal.Log site of cluster/calcium (4 event types): W1 the covered effect is dominated by the successful Log (for create-workload: Log follows the engine create with no other effect in between); W2 the Commit runs only after the covered effect is resolved on every path — for allocate-workload/create-workload the commit sits in a defer of the function that calls the enclosing Txn (so it runs after Txn returned), for create-processing the marker deletion runs before the commit in defer (LIFO) order; W3 every logged event constant has a handler constructed with that constant and registered in enableWAL; W4 the static type of the logged item is the type the handler's Encode/Check/Handle assert; LV replay handlers' asynchronous closures do not capture a shared loop variable; RC recovery is invoked at start-up. " +
+	r.Explanation = "For every wal.Log site of cluster/calcium (4 event types): W1 the covered effect is dominated by the successful Log (for create-workload: Log follows the engine create with no other effect in between); W2 the Commit runs only after the covered effect is resolved on every path — for allocate-workload/create-workload the commit sits in a defer of the function that calls the enclosing Txn (so it runs after Txn returned), for create-processing the marker deletion runs before the commit in defer (LIFO) order; W3 every logged event constant has a handler constructed with that constant and registered in enableWAL; W4 the static type of the logged item is the type the handler's Encode/Check/Handle assert; W5 the fields of a logged item are final when it is logged: a field read from a local object (item{ID: w.ID}) is not assigned later in the same function, and if that function assigns it at all an assignment dominates the Log call — a log entry written before the identifier it carries is known cannot be matched to anything on replay; LV replay handlers' asynchronous closures do not capture a shared loop variable; RC recovery is invoked at start-up. " +
 		"A crash between an effect and its missing/early-committed log entry is exactly a crash point after which recovery cannot repair."
 	r.NotCovered = "what handlers achieve at run time; handler errors that are swallowed (WorkloadResourceAllocatedHandler.Handle returns nil); bbolt durability"
 	r.Assumptions = []string{"A4 bbolt Put/Delete are durable and atomic"}
@@ -166,6 +166,7 @@ func checkC14(p *Prog, r *Result, tier string) {
 	r.min("W2", 4)
 	r.min("W3", 4)
 	r.min("W4", 4)
+	r.min("W5", 4)
 	r.Analysed["wal_log_sites"] = len(sites)
 	var tbl []string
 	for _, e := range walEvents {
@@ -179,6 +180,7 @@ func checkC14(p *Prog, r *Result, tier string) {
 		checkW2(p, r, a, s, key, txnSites)
 	}
 	checkW3W4(p, r, sites)
+	checkW5(p, r, sites)
 	checkLoopVarCapture(p, r, "LV", []string{"cluster/calcium.(*WorkloadResourceAllocatedHandler).Handle", "cluster/calcium.(*CreateLambdaHandler).Handle", "cluster/calcium.(*CreateWorkloadHandler).Handle", "cluster/calcium.(*ProcessingCreatedHandler).Handle"})
 	// RC: recovery invoked at start-up
 	r.min("RC", 2)
@@ -602,6 +604,78 @@ func checkLoopVarCapture(p *Prog, r *Result, rule string, names []string) {
 			r.ok(rule, key, p.pos(fn.Decl), "")
 		} else {
 			r.bad(rule, key, p.pos(fn.Decl), strings.Join(bad, "; ")+" (go.mod language version < 1.22: the variable is shared by all iterations, so goroutines see a later element)")
+		}
+	}
+}
+
+// W5: the logged item carries values that are final at the time of the Log call.
+func checkW5(p *Prog, r *Result, sites []*walSite) {
+	for _, s := range sites {
+		fn := s.fn
+		key := fmt.Sprintf("%s logs %s / W5 logged fields are final when logged", fn.Name, s.spec.constName)
+		if len(s.call.Args) < 2 {
+			r.undecided("W5", key, p.pos(s.call), "Log call without item")
+			continue
+		}
+		item := unparen(s.call.Args[1])
+		if u, ok := item.(*ast.UnaryExpr); ok {
+			item = unparen(u.X)
+		}
+		lit, ok := item.(*ast.CompositeLit)
+		if !ok {
+			r.ok("W5", key, p.pos(s.call), "item is a value built earlier ("+exprStr(s.call.Args[1])+"), no field is read at the call")
+			continue
+		}
+		logRef := fn.find(s.call)
+		why := ""
+		nf := 0
+		for _, el := range lit.Elts {
+			kv, ok := el.(*ast.KeyValueExpr)
+			if !ok {
+				continue
+			}
+			sel, ok := unparen(kv.Value).(*ast.SelectorExpr)
+			if !ok {
+				continue
+			}
+			base := fn.objOf(sel.X)
+			if base == nil {
+				continue
+			}
+			nf++
+			// assignments to base.Field in this function
+			var assigns []*ast.AssignStmt
+			fn.inspectBody(func(n ast.Node) bool {
+				if as, ok := n.(*ast.AssignStmt); ok {
+					for _, l := range as.Lhs {
+						if ls, ok := unparen(l).(*ast.SelectorExpr); ok && fn.objOf(ls.X) == base && ls.Sel.Name == sel.Sel.Name {
+							assigns = append(assigns, as)
+						}
+					}
+				}
+				return true
+			})
+			if len(assigns) == 0 {
+				continue
+			}
+			dom := false
+			for _, as := range assigns {
+				ar := fn.find(as)
+				if fn.dominates(ar, logRef) && ar != logRef {
+					dom = true
+				}
+				if _, reachable := fn.reach(logRef, true, func(nr nodeRef) bool { return nr == ar }, nil, false); reachable {
+					why = fmt.Sprintf("%s.%s is assigned at %s after the entry carrying it was logged: the logged %s is the stale (empty) value, so replay cannot find the %s it should act on", exprStr(sel.X), sel.Sel.Name, p.pos(as), exprStr(kv.Key), exprStr(kv.Key))
+				}
+			}
+			if !dom && why == "" {
+				why = fmt.Sprintf("%s.%s is assigned in this function but no assignment dominates the Log call", exprStr(sel.X), sel.Sel.Name)
+			}
+		}
+		if why == "" {
+			r.ok("W5", key, p.pos(s.call), fmt.Sprintf("%d field(s) read from locals, none assigned after the call", nf))
+		} else {
+			r.bad("W5", key, p.pos(s.call), why)
 		}
 	}
 }
